@@ -22,7 +22,7 @@ use support::rng::{Fp, Rng};
 const ABSENT: u32 = 9;
 const FRESH: u32 = 77;
 
-pub const MAP_OPS: [&str; 44] = [
+pub const MAP_OPS: [&str; 45] = [
     "insert", "insert_key_value", "checked_insert", "remove(q)", "remove(k)", "remove_entry(q)", "get(q)", "get(k)",
     "get_mut(q)", "contains_key(k)", "get_key_value(q)", "index(q)", "index_mut(k)", "retain(some)", "retain(none)",
     "clear", "drain.take0.drop", "drain.take1.drop", "clone", "eq(equal)", "eq(different)", "entry.or_insert",
@@ -30,11 +30,11 @@ pub const MAP_OPS: [&str; 44] = [
     "entry.insert", "entry.remove|into_key", "entry.remove_entry|key", "from_iter", "into_iter.take1.drop",
     "into_keys.take0.drop", "into_values.take1.drop", "drop(map)", "get_disjoint_mut", "fmt.debug", "fmt.display",
     "fmt.iter-debug", "fmt.drain-debug", "retain(mutate)", "entry.get|get_mut|into_mut", "clone-from-clone.eq",
-    "drain.take-all", "from(array)",
+    "drain.take-all", "from(array)", "insert_unchecked",
 ];
 /// which map ops take a key argument (the others run once per state)
 fn map_op_keyed(op: usize) -> bool {
-    matches!(op, 0..=12 | 21..=28 | 34 | 40)
+    matches!(op, 0..=12 | 21..=28 | 34 | 40 | 44)
 }
 
 pub const SET_OPS: [&str; 30] = [
@@ -107,11 +107,14 @@ pub struct Drv<'a> {
     /// sub-sampling of the case space (Miri): only cases with (case_no / nshards) % stride == phase
     pub stride: u64,
     pub phase: u64,
+    /// restrict the space to one operation (C18: insert_unchecked)
+    pub only_op: Option<String>,
 }
 
 fn viol(d: &mut Drv, what: &str, msg: String) {
     let (_, _, op) = ledger::ctx();
-    ledger::violation("C04", format!("{}@{}", what, op), msg);
+    let prop = if d.cx.prop == "C18" { "C18" } else { "C04" };
+    ledger::violation(prop, format!("{}@{}", what, op), msg);
     d.failed = true;
 }
 
@@ -301,6 +304,15 @@ fn run_map_op<F: Fam, const N: usize>(op: usize, kc: u32, layout: &[u32], env: &
             let m = env.m.as_mut().unwrap();
             let r = m.insert(mk(0), mv(500));
             drop(r);
+        }
+        44 => {
+            // only inside the documented precondition (decided from the layout, without calling user code)
+            if layout.len() < N || layout.contains(&kc) {
+                let m = env.m.as_mut().unwrap();
+                // SAFETY: the map is not full, or the key is present
+                let r = unsafe { m.insert_unchecked(mk(0), mv(500)) };
+                drop(r);
+            }
         }
         1 => {
             let m = env.m.as_mut().unwrap();
@@ -832,7 +844,8 @@ impl<'a> Drv<'a> {
             if ledger::viol_total() > 0 || self.failed {
                 let descr = self.descr.clone();
                 let kk = k;
-                self.cx.rep.absorb_violations("C04", &|| vec![descr.clone(), format!("fault armed at callback tick {} of {} (0 = none)", kk, n)]);
+                let mem_prop = if self.cx.prop == "C18" { "C18" } else { "C04" };
+                self.cx.rep.absorb_violations(mem_prop, &|| vec![descr.clone(), format!("fault armed at callback tick {} of {} (0 = none)", kk, n)]);
                 self.failed = false;
             }
             k += 1;
@@ -904,7 +917,8 @@ impl<'a> Drv<'a> {
             if ledger::viol_total() > 0 || self.failed {
                 let descr = self.descr.clone();
                 let kk = k;
-                self.cx.rep.absorb_violations("C04", &|| vec![descr.clone(), format!("fault armed at callback tick {} of {} (0 = none)", kk, n)]);
+                let mem_prop = if self.cx.prop == "C18" { "C18" } else { "C04" };
+                self.cx.rep.absorb_violations(mem_prop, &|| vec![descr.clone(), format!("fault armed at callback tick {} of {} (0 = none)", kk, n)]);
                 self.failed = false;
             }
             k += 1;
@@ -922,6 +936,11 @@ impl<'a> Drv<'a> {
             for op in 0..MAP_OPS.len() {
                 if op == 43 && (N == 0 || !layout.is_empty()) {
                     continue;
+                }
+                if let Some(o) = &self.only_op {
+                    if MAP_OPS[op] != o {
+                        continue;
+                    }
                 }
                 let keys = if map_op_keyed(op) { key_choices(&layout) } else { vec![ABSENT] };
                 for kc in keys {
@@ -948,6 +967,9 @@ impl<'a> Drv<'a> {
 
     pub fn set_space<F: Fam, const N: usize, const M: usize>(&mut self, universe: u32, others: &[&[u32]]) {
         let (si, sn) = self.cx.shard;
+        if self.only_op.is_some() {
+            return;
+        }
         for layout in layouts(universe, N) {
             for op in 0..SET_OPS.len() {
                 let keys = if set_op_keyed(op) { key_choices(&layout) } else { vec![ABSENT] };
@@ -988,8 +1010,11 @@ impl<'a> Drv<'a> {
             rng.shuffle(&mut classes);
             let layout: Vec<u32> = classes[..len].to_vec();
             self.case_no += 1;
-            if rng.chance(2, 3) {
-                let op = rng.usize_below(MAP_OPS.len());
+            if rng.chance(2, 3) || self.only_op.is_some() {
+                let mut op = rng.usize_below(MAP_OPS.len());
+                if let Some(o) = &self.only_op {
+                    op = MAP_OPS.iter().position(|x| x == o).unwrap_or(0);
+                }
                 if op == 43 {
                     continue;
                 }
@@ -1036,6 +1061,7 @@ pub fn new_drv(cx: &mut Ctx) -> Drv<'_> {
         failed: false,
         stride: 1,
         phase: 0,
+        only_op: None,
     }
 }
 
